@@ -10,6 +10,17 @@ TRUST = ("Trusted: rustc nightly's type checker and MIR construction as dumped b
          "frozen); clang 14's AST for the vendored C where used. ")
 
 CLAIMED = {
+    "C01": dict(
+        technique="sibling-table comparison: per-combinator bit codes and payload sequences extracted from encoder and decoder MIR by path enumeration with constant propagation; arity tables of the DAG views; traversal/sharing pairing rules",
+        text="Decides the parts of the round trip that are table agreement and pairing: the bits encode_node writes for each of the "
+             "16 combinators (plus hidden node and one-child disconnect) are exactly the decision path on which decode_node builds the "
+             "node that decode_expression turns into that combinator; payloads agree in kind, number and order; codes are prefix-free; "
+             "the six DAG views used for traversal agree on arity and child order per combinator; witnesses are written and re-attached "
+             "in the same (post-order, maximally shared) traversal keyed on Node::sharing_id; the encoded node count is the length of "
+             "the iterator encoded; writers are flushed. Equality of the round-tripped program for all DAGs is a runtime relation and "
+             "is not decided.",
+        note=TRUST + "Assumes PostOrderIter's bookkeeping (C18) and the natural-number/value coders (C13/C10).",
+        design="3/C01"),
     "C02": dict(
         technique="must-pass-through (dominator) + verdict-use + provenance rules on the decoders' MIR; call-graph recursion review",
         text="Decides that each canonicity mechanism the decoders rely on (canonical-order comparison, hidden-node set, "
